@@ -50,6 +50,15 @@ fn write_atom_encoding_prefix_with_size<W: io::Write>(
     }
 }
 
+/// verification hook: the length prefix write_atom() emits for an atom of
+/// `size` bytes whose first byte is `atom_0`
+#[cfg(feature = "verif-hooks")]
+pub fn encode_size_prefix(atom_0: u8, size: u64) -> Result<Vec<u8>> {
+    let mut buf = Vec::new();
+    write_atom_encoding_prefix_with_size(&mut buf, atom_0, size)?;
+    Ok(buf)
+}
+
 /// serialize an atom
 pub fn write_atom<W: io::Write>(f: &mut W, atom: &[u8]) -> Result<()> {
     let u8_0 = if !atom.is_empty() { atom[0] } else { 0 };
